@@ -15,6 +15,7 @@ import (
 	"strconv"
 	"strings"
 	"sync"
+	"sync/atomic"
 	"testing/synctest"
 )
 
@@ -28,6 +29,7 @@ const (
 	RoleClient
 )
 
+//go:norace
 func (r Role) String() string {
 	return [...]string{"handler", "worker", "starter", "stopper", "client"}[r]
 }
@@ -51,10 +53,13 @@ type G struct {
 }
 
 // gone reports whether the goroutine belongs to a crashed incarnation.
+//
+//go:norace
 func (g *G) gone() bool {
 	return g.Inst != nil && (g.Inst.Dead || g.inc != g.Inst.Opens)
 }
 
+//go:norace
 func (g *G) String() string {
 	inst := ""
 	if g.Inst != nil {
@@ -72,6 +77,7 @@ type Tape struct {
 	Used int
 }
 
+//go:norace
 func (t *Tape) Int(n int) int {
 	if n <= 1 {
 		return 0
@@ -94,6 +100,8 @@ func (t *Tape) Int(n int) int {
 }
 
 // Weighted picks index i with probability w[i]/sum; index 0 is the "simplest".
+//
+//go:norace
 func (t *Tape) Weighted(w []int) int {
 	sum := 0
 	for _, x := range w {
@@ -109,11 +117,12 @@ func (t *Tape) Weighted(w []int) int {
 	return 0
 }
 
+//go:norace
 func (t *Tape) Bool(pct int) bool { return t.Int(100) < pct }
 
 // Sched is the deterministic scheduler.
 type Sched struct {
-	mu    sync.Mutex
+	mu    hmu
 	gs    map[int64]*G
 	order []*G
 	seq   int
@@ -139,17 +148,19 @@ type Sched struct {
 	// Stalls): it is doing an unbounded amount of work instead of answering.
 	WorkBudget int
 	Stalls     []string
-	FatalExits     []string // logrus.Fatal interceptions
-	Panics         []string
+	FatalExits []string // logrus.Fatal interceptions
+	Panics     []string
 
 	// statistics
 	GateHits map[string]int
 }
 
+//go:norace
 func NewSched(tape *Tape) *Sched {
 	return &Sched{gs: map[int64]*G{}, Tape: tape, dead: make(chan struct{}), GateHits: map[string]int{}}
 }
 
+//go:norace
 func goid() int64 {
 	var buf [64]byte
 	n := runtime.Stack(buf[:], false)
@@ -163,6 +174,7 @@ func goid() int64 {
 	return -1
 }
 
+//go:norace
 func (s *Sched) register(id int64, role Role, inst *Instance, name string) *G {
 	g := &G{id: id, seq: s.seq, Role: role, Inst: inst, Name: name, ch: make(chan struct{})}
 	s.seq++
@@ -172,10 +184,26 @@ func (s *Sched) register(id int64, role Role, inst *Instance, name string) *G {
 		g.nodeGates = inst.W.NodeGates
 		g.inc = inst.Opens
 	}
+	// The handler and the worker are started back to back by the wallet and
+	// register themselves at their first gate, in whatever order the Go
+	// runtime happens to run them (the race-detector build randomises it).
+	// The canonical order must not depend on that: handler before worker.
+	if role == RoleHandler && inst != nil {
+		for i, o := range s.order {
+			if o != g && o.Role == RoleWorker && o.Inst == inst && o.inc == g.inc {
+				j := len(s.order) - 1
+				s.order[i], s.order[j] = s.order[j], s.order[i]
+				o.seq, g.seq = g.seq, o.seq
+				break
+			}
+		}
+	}
 	return g
 }
 
 // Current returns the managed goroutine record of the caller, or nil.
+//
+//go:norace
 func (s *Sched) Current() *G {
 	id := goid()
 	s.mu.Lock()
@@ -185,6 +213,8 @@ func (s *Sched) Current() *G {
 
 // Go starts fn as a managed goroutine; it parks at "<role>.start" first so the
 // scheduler decides when it begins.
+//
+//go:norace
 func (s *Sched) Go(role Role, inst *Instance, name string, fn func()) *G {
 	ready := make(chan *G)
 	go func() {
@@ -192,7 +222,9 @@ func (s *Sched) Go(role Role, inst *Instance, name string, fn func()) *G {
 		s.mu.Lock()
 		g := s.register(id, role, inst, name)
 		s.mu.Unlock()
+		raceOff()
 		ready <- g
+		raceOn()
 		defer func() {
 			s.mu.Lock()
 			g.done = true
@@ -202,12 +234,16 @@ func (s *Sched) Go(role Role, inst *Instance, name string, fn func()) *G {
 		s.Gate(role.String() + ".start")
 		fn()
 	}()
+	raceOff()
 	g := <-ready
+	raceOn()
 	synctest.Wait()
 	return g
 }
 
 // Gate parks the calling goroutine if it is managed.
+//
+//go:norace
 func (s *Sched) Gate(point string) {
 	id := goid()
 	s.mu.Lock()
@@ -237,14 +273,18 @@ func (s *Sched) Gate(point string) {
 	}
 	if g.gone() {
 		s.mu.Unlock()
+		raceOff()
 		<-s.dead
 		return
 	}
 	g.parked = point
 	s.GateHits[point]++
 	s.mu.Unlock()
+	raceOff()
 	<-g.ch
+	raceOn()
 	if g.gone() {
+		raceOff()
 		<-s.dead
 	}
 }
@@ -254,6 +294,8 @@ func (s *Sched) Gate(point string) {
 type workBudgetExceeded struct{ n int }
 
 // Work is called by the storage and node seams once per query.
+//
+//go:norace
 func (s *Sched) Work() {
 	if s.WorkBudget == 0 {
 		return
@@ -275,13 +317,31 @@ func (s *Sched) Work() {
 }
 
 // Abandon makes the calling goroutine block forever (its instance crashed).
-func (s *Sched) Abandon() { <-s.dead }
+//
+//go:norace
+func (s *Sched) Abandon() { raceOff(); <-s.dead }
 
 // PreferQuit implements masswallet.SimPreferQuit.
+//
+//go:norace
 func (s *Sched) PreferQuit() bool {
 	g := s.Current()
 	return g != nil && g.Inst != nil && g.Inst.QuitClosed
 }
+
+// Progress is bumped at every scheduler step; the worker's watchdog (outside
+// the bubble, real time) ends the process when it stops moving.
+var Progress atomic.Int64
+
+// hmu is a mutex of the simulator itself: invisible to the race detector as
+// a synchronisation (see racehooks_race.go).
+type hmu struct{ m sync.Mutex }
+
+//go:norace
+func (h *hmu) Lock() { raceOff(); h.m.Lock() }
+
+//go:norace
+func (h *hmu) Unlock() { h.m.Unlock(); raceOn() }
 
 // Action is one thing the scheduler can do next.
 type Action struct {
@@ -289,8 +349,10 @@ type Action struct {
 	Kind string // "run", "deliver", "suspend", "quit"
 }
 
+//go:norace
 func (a Action) String() string { return a.G.String() + "@" + a.G.parked + "/" + a.Kind }
 
+//go:norace
 func (s *Sched) workerBlocked(inst *Instance) bool {
 	w := inst.workerG
 	return w != nil && !w.done && w.parked == "" && !w.gone()
@@ -298,6 +360,8 @@ func (s *Sched) workerBlocked(inst *Instance) bool {
 
 // Enabled lists the enabled actions in canonical order (creation order of the
 // goroutines, which is itself decided by the schedule).
+//
+//go:norace
 func (s *Sched) Enabled() []Action {
 	s.mu.Lock()
 	defer s.mu.Unlock()
@@ -341,6 +405,7 @@ func (s *Sched) Enabled() []Action {
 	return out
 }
 
+//go:norace
 func (s *Sched) note(a Action) {
 	h := fnv.New64a()
 	var b [8]byte
@@ -356,7 +421,10 @@ func (s *Sched) note(a Action) {
 }
 
 // Do performs one action and waits for quiescence.
+//
+//go:norace
 func (s *Sched) Do(a Action) {
+	Progress.Add(1)
 	s.Steps++
 	s.note(a)
 	g := a.G
@@ -377,12 +445,16 @@ func (s *Sched) Do(a Action) {
 	}
 	g.parked = ""
 	s.mu.Unlock()
+	raceOff()
 	g.ch <- struct{}{}
+	raceOn()
 	synctest.Wait()
 }
 
 // Step picks one enabled action from the tape. It returns false when nothing
 // is enabled.
+//
+//go:norace
 func (s *Sched) Step() bool {
 	en := s.Enabled()
 	if len(en) == 0 {
@@ -395,6 +467,8 @@ func (s *Sched) Step() bool {
 
 // StepFair picks enabled actions round-robin over goroutines (used once the
 // environment has stopped changing: the liveness form).
+//
+//go:norace
 func (s *Sched) StepFair() bool {
 	en := s.Enabled()
 	if len(en) == 0 {
@@ -416,6 +490,8 @@ func (s *Sched) StepFair() bool {
 
 // RunUntilDone steps (from the tape) until g has finished; it returns false if
 // nothing is enabled while g is still not done (deadlock) or the budget ends.
+//
+//go:norace
 func (s *Sched) RunUntilDone(g *G, budget int) bool {
 	for i := 0; i < budget; i++ {
 		if g.done {
@@ -433,6 +509,8 @@ func (s *Sched) RunUntilDone(g *G, budget int) bool {
 
 // RunSolo releases only g (and whoever holds the writer lock it waits for)
 // until g is done.
+//
+//go:norace
 func (s *Sched) RunSolo(g *G, budget int) bool {
 	for i := 0; i < budget && !g.done; i++ {
 		if s.CrashRequested {
@@ -472,6 +550,8 @@ func (s *Sched) RunSolo(g *G, budget int) bool {
 
 // Quiesce runs fairly until nothing is enabled; returns steps used and whether
 // the budget sufficed.
+//
+//go:norace
 func (s *Sched) Quiesce(budget int) (int, bool) {
 	n := 0
 	for n < budget {
@@ -487,6 +567,8 @@ func (s *Sched) Quiesce(budget int) (int, bool) {
 }
 
 // ParkedSummary describes where everyone is (for deadlock reports).
+//
+//go:norace
 func (s *Sched) ParkedSummary() []string {
 	s.mu.Lock()
 	defer s.mu.Unlock()
@@ -507,6 +589,8 @@ func (s *Sched) ParkedSummary() []string {
 }
 
 // dbLockRelease is called by SimDB after commit/rollback.
+//
+//go:norace
 func (s *Sched) dbLockRelease(g *G) {
 	s.mu.Lock()
 	if g == nil {
@@ -518,6 +602,8 @@ func (s *Sched) dbLockRelease(g *G) {
 }
 
 // dbLockRoot is called by SimDB when an unmanaged goroutine begins a write tx.
+//
+//go:norace
 func (s *Sched) dbLockRoot() {
 	s.mu.Lock()
 	defer s.mu.Unlock()
@@ -529,6 +615,8 @@ func (s *Sched) dbLockRoot() {
 
 // ForgetInstance drops the goroutines of a crashed instance from lock
 // ownership.
+//
+//go:norace
 func (s *Sched) ForgetInstance(inst *Instance) {
 	s.mu.Lock()
 	defer s.mu.Unlock()
@@ -544,6 +632,8 @@ func (s *Sched) ForgetInstance(inst *Instance) {
 // it releases it (the root is about to run a write transaction itself, e.g.
 // to open another instance's database; ldb shares one global batch buffer, so
 // write transactions of different instances must not overlap either).
+//
+//go:norace
 func (s *Sched) FreeWriterLock() {
 	for i := 0; i < 100000; i++ {
 		s.mu.Lock()
